@@ -105,6 +105,41 @@ theorem accepted_snapshot_is_senders_with_builder {S D I : Type} (ops : Ops S D)
   · intro hs; subst hs; exact h
   · intro e hs; subst hs; exact h
 
+/-- `ack_tick` is cleared on an unknown base and on a bad checksum (and set only by a successful
+apply: `Storage.finishDelta`) — for every storage state, delta and snapshot layer. -/
+theorem ack_cleared_on_unknown_base_or_bad_checksum {S D : Type} (ops : Ops S D) (st : Storage S)
+    (crc : Option Int) (deltaTick tick : Int) (delta : D) :
+    ((st.addDelta ops crc deltaTick tick delta).2.1 = .error .unknownSnap ∨
+      (st.addDelta ops crc deltaTick tick delta).2.1 = .error .invalidCrc) →
+    (st.addDelta ops crc deltaTick tick delta).1.ackTick = none := by
+  have hfin : ∀ (st' : Storage S) (base : S) (w : Bool),
+      ((st'.finishDelta ops crc tick base delta w).2.1 = .error .unknownSnap ∨
+        (st'.finishDelta ops crc tick base delta w).2.1 = .error .invalidCrc) →
+      (st'.finishDelta ops crc tick base delta w).1.ackTick = none := by
+    intro st' base w
+    unfold Storage.finishDelta
+    cases ops.apply base delta with
+    | error e => intro h; rcases h with h | h <;> simp at h
+    | ok new =>
+      simp only
+      cases crc with
+      | none => simp
+      | some c => by_cases hc : c = ops.crc new <;> simp [hc]
+  unfold Storage.addDelta
+  by_cases h1 : st.newestTick ≥ tick
+  · simp only [h1, if_true]; intro h; rcases h with h | h <;> simp at h
+  simp only [h1, if_false]
+  by_cases h2 : deltaTick ≥ 0
+  · simp only [h2, if_true]
+    cases (keepFrom st.snaps deltaTick).getLast? with
+    | none => intro _; rfl
+    | some d =>
+      simp only
+      by_cases h3 : d.tick = deltaTick
+      · rw [if_pos h3]; exact hfin _ _ _
+      · rw [if_neg h3]; intro _; rfl
+  · simp only [h2, if_false]; exact hfin _ _ _
+
 /-- The invariant behind it: at every moment every snapshot stored on the receiving side under
 tick `t` is the sender's snapshot for `t`, the sender's base is a snapshot it still stores (with a
 non-negative tick) or the empty one, and the receiver is either idle or holds true parts of one of
